@@ -173,7 +173,7 @@ func (r *Run) step(fr *Frame, st *State, in ssa.Instruction) {
 			return
 		}
 		r.nilCheck(fr, st, in, p)
-		np := &Ptr{Kind: p.P.Kind, T: p.P.T, Idx: p.P.Idx, Cell: p.P.Cell, Root: p.P.Root, Path: append(append([]int{}, p.P.Path...), x.Field)}
+		np := &Ptr{Kind: p.P.Kind, T: p.P.T, Idx: p.P.Idx, Cell: p.P.Cell, Root: p.P.Root, Fam: p.P.Fam, Path: append(append([]int{}, p.P.Path...), x.Field)}
 		fr.vals[x] = &Val{K: KPtr, Ty: x.Type(), P: np}
 	case *ssa.Field:
 		s := r.val(fr, st, x.X)
@@ -584,7 +584,7 @@ func (r *Run) indexAddr(fr *Frame, st *State, x *ssa.IndexAddr) *Val {
 		}
 		r.safety(fr, st, "index", x, app("and", app("<=", "0", idx.T), app("<", idx.T, base.Len)))
 		et := base.Ty.Underlying().(*types.Slice).Elem()
-		return &Val{K: KPtr, Ty: x.Type(), P: &Ptr{Kind: PElem, T: base.Ref, Idx: app("+", base.Off, idx.T), Root: et}}
+		return &Val{K: KPtr, Ty: x.Type(), P: &Ptr{Kind: PElem, T: base.Ref, Idx: simplifyAdd(base.Off, idx.T), Root: et, Fam: base.Fam}}
 	case KPtr:
 		// pointer to array
 		if base.P.Kind == PCell {
@@ -649,7 +649,7 @@ func (r *Run) slice(fr *Frame, st *State, x *ssa.Slice) *Val {
 		} else {
 			r.safety(fr, st, "slice", x, app("and", app("<=", "0", lo), app("<=", lo, hi), app("<=", hi, base.Cap)))
 		}
-		nv := &Val{K: KSlice, Ty: x.Type(), Ref: base.Ref, Off: simplifyAdd(base.Off, lo), Len: simplifySub(hi, lo), Cap: simplifySub(bound, lo), FromCell: base.FromCell}
+		nv := &Val{K: KSlice, Ty: x.Type(), Ref: base.Ref, Off: simplifyAdd(base.Off, lo), Len: simplifySub(hi, lo), Cap: simplifySub(bound, lo), FromCell: base.FromCell, Fam: base.Fam}
 		if isByteSlice(base.Ty) && base.Content != "" && (base.ContentVer == st.hbVer || base.ContentVer == -1) {
 			// valid while hi <= len(base); otherwise the cache is dropped
 			c := r.fresh("sub", "String")
@@ -682,6 +682,9 @@ func (r *Run) slice(fr *Frame, st *State, x *ssa.Slice) *Val {
 					hi = n
 				}
 				nv := &Val{K: KSlice, Ty: x.Type(), Ref: ref, Off: lo, Len: simplifySub(hi, lo), Cap: simplifySub(n, lo)}
+				if base.P.Cell.name == "varargs" {
+					nv.Fam = "#va" // argument lists of variadic calls never alias program slices
+				}
 				if isByteSlice(x.Type()) {
 					allZero := true
 					var parts []string
@@ -714,7 +717,7 @@ func (r *Run) slice(fr *Frame, st *State, x *ssa.Slice) *Val {
 					if srt == "" {
 						continue
 					}
-					name := sliceArrayName(et, lf.name)
+					name := sliceArrayName(et, lf.name) + nv.Fam
 					a := r.heapArr(st, name, "(Array Int "+srt+")")
 					cur := app("(as const (Array Int "+srt+"))", zeroTerm(lf.ty))
 					for i, e := range arr.Elems {
